@@ -529,7 +529,7 @@ pub fn c01(c: &Collector, g: &mut Guard) {
         fills: vec![Fill::F0, Fill::F1, Fill::F3, Fill::F7],
         cursors: CursorSel::All,
         regions: RegionSel::Some,
-        modesets: vec![0, M_IRM | M_DECOM, M_DECAWM_OFF | M_DECSCNM | M_LNM],
+        modesets: vec![0, M_IRM | M_DECOM, M_DECAWM_OFF | M_DECSCNM | M_LNM, M_IRM | M_DECAWM_OFF],
         renditions: vec![vec![]],
         stacks: vec![0, 1],
         charsets: default_charsets(),
